@@ -199,12 +199,48 @@ def c01(ctx):
                         cov["http_clones"] += 1
                     if len(samples) < 4:
                         samples.append({"chunker": k[0], "compression": k[1], "source": k[2], "input": k[3], "clone_over_http": k[4]})
+    many_chunks(bita, root, viol, cov, thorough)
     if thorough:
         big_source(bita, root, viol, cov)
     shutil.rmtree(root, ignore_errors=True)
     cov.update({"evaluations": len(cases), "distinct_nontrivial": len(distinct), "exhaustive": True, "samples": samples,
-                "rule": "real binary: {fixed, rollsum, buzhash, default parameters} x {none, brotli, zstd, lzma} x {empty, 1 byte, 40 B, 3 kB, 5 kB zeros (thorough: + >1 MiB)} x {file input, stdin input (quick: every 3rd)}: bita compress -> bita clone --verify-output (local / HTTP alternating) -> bytes, exit status, temp file removed, bita info; thorough: a sparse source of 4 GiB + 3 MiB + 12345 bytes with distinct chunks below / at / above offset 2^32, compressed, cloned and re-cloned in place over a prior output with two of them swapped; non-trivial = distinct cells that ran to the end"})
+                "rule": "real binary: {fixed, rollsum, buzhash, default parameters} x {none, brotli, zstd, lzma} x {empty, 1 byte, 40 B, 3 kB, 5 kB zeros (thorough: + >1 MiB)} x {file input, stdin input (quick: every 3rd)}: bita compress -> bita clone --verify-output (local / HTTP alternating) -> bytes, exit status, temp file removed, bita info; a source of 70 000 unique 4-byte chunks (indexes beyond 2^16) compressed and cloned (thorough: re-cloned in place over its reverse); thorough: a sparse source of 4 GiB + 3 MiB + 12345 bytes with distinct chunks below / at / above offset 2^32, compressed, cloned and re-cloned in place over a prior output with two of them swapped; non-trivial = distinct cells that ran to the end"})
     return result(ctx["pid"], "exploration", cov, viol, t0, ["A5: real binary observed at process boundary"])
+
+
+def many_chunks(bita, root, viol, cov, thorough):
+    """More than 2^16 unique chunks (descriptor and rebuild indexes beyond 65535): 70 000 distinct 4-byte chunks,
+    compressed, cloned, and re-cloned in place over a prior output holding them in reverse order."""
+    n = 70_000
+    source = b"".join(i.to_bytes(4, "little") for i in range(1, n + 1)) + b"xy"
+    d = os.path.join(root, "many")
+    os.makedirs(d)
+    src, arc, out = os.path.join(d, "src.bin"), os.path.join(d, "a.cba"), os.path.join(d, "out.bin")
+    with open(src, "wb") as f:
+        f.write(source)
+    detail = {"case": "70000 unique 4-byte chunks + a 2-byte tail, hash length 8"}
+    r = sh([bita, "compress", "--fixed-size", "4B", "--hash-length", "8", "--compression", "none", "-i", src, arc], timeout=600)
+    cov["many_chunk_cases"] = 1
+    if r.returncode != 0:
+        viol.add("valid-compress-failed", dict(detail, stderr=r.stderr.decode()[-300:]))
+        return
+    r = sh([bita, "clone", "--verify-output", arc, out], timeout=600)
+    if r.returncode != 0:
+        viol.add("valid-clone-failed", dict(detail, stderr=r.stderr.decode()[-300:]))
+        return
+    if open(out, "rb").read() != source:
+        viol.add("success-with-wrong-output", detail)
+    if not thorough:
+        return  # the in-place step takes half a minute (70 000 moves)
+    # in place over the reverse order (every chunk moves) + 3 junk chunks
+    with open(out, "wb") as f:
+        f.write(b"".join(i.to_bytes(4, "little") for i in range(n, 0, -1)) + b"junkjunkjunk")
+    r = sh([bita, "clone", "--seed-output", arc, out], timeout=600)
+    if r.returncode != 0:
+        viol.add("valid-clone-failed", dict(detail, step="in place over the reverse order", stderr=r.stderr.decode()[-300:]))
+    elif open(out, "rb").read() != source:
+        viol.add("success-with-wrong-output", dict(detail, step="in place over the reverse order"))
+    cov["many_chunk_cases"] = 2
 
 
 def files_equal(a, b):
@@ -400,6 +436,8 @@ def c02(ctx):
             with open(sp, "wb") as f:
                 f.write(seedb)
             argv += ["--seed", sp]
+        if seedb is None:
+            argv.append("--verify-output")
         r = sh(argv + [larc, out], stdin_data=stdin_data, timeout=300)
         large_cases += 1
         detail = {"case": "3 MiB chunks, " + name}
@@ -736,7 +774,10 @@ def c12(ctx):
                     cmd = [bita, "compress", "--buffered-chunks", str(buffers)] + cargs + pargs
                     # runtime worker count: tokio honours TOKIO_WORKER_THREADS; rotate 1 / 2 / default
                     workers = [None, "1", "2"][(rep + buffers) % 3]
-                    xenv = {"TOKIO_WORKER_THREADS": workers} if workers else None
+                    xenv = {"TOKIO_WORKER_THREADS": workers} if workers else {}
+                    # ... and the rest of the environment must not leak into the archive either
+                    xenv.update([{}, {"TZ": "Asia/Tokyo"}, {"LANG": "tr_TR.UTF-8", "LC_ALL": "tr_TR.UTF-8"}, {"RUST_LOG": "trace"},
+                                 {"HOME": "/nonexistent", "USER": "someone-else", "TMPDIR": d}][(rep * 2 + buffers) % 5])
                     # thorough: perturb syscall timing of every 6th run (delay each write(2) by 300 us)
                     if thorough and (rep + buffers) % 6 == 5:
                         cmd = ["strace", "-f", "-qq", "-o", "/dev/null", "-e", "trace=write", "-e", "inject=write:delay_enter=300"] + cmd
